@@ -18,6 +18,10 @@ func propC07(c *Ctx) {
 	defer func() {
 		rcf := c.Rule("copy-fields", "Copy of an error value builds a new value with every field, the wrapped *Error copied (script code that derives an error with err.New must not rewrite the process-wide builtin error values)", 2)
 		ruleCopyFields(c, rcf, "Error", "RuntimeError")
+		if vf := getVMFacts(c, rcf); vf != nil {
+			rfci := c.Rule("frame-claim-init", "the call routine stores every field of a call frame it claims before it returns successfully: no activation starts with state left by an earlier run", 3)
+			ruleFrameClaimInit(c, rfci, vf)
+		}
 	}()
 	rr := c.Rule("run-reset", "every VM field that code reachable from the dispatch loop stores to is stored again on every path from Run's entry to the start of the loop (so no value left by a previous run - finished, failed, panicked or aborted - is read), unless it is an audited persistent field", 5)
 	vf := getVMFacts(c, rr)
